@@ -269,9 +269,19 @@ pub fn relay_peer_handle(sim: &mut Sim, p: usize, _session: usize, _proto: Proto
     if let Ok(m) = packed::RelayMessageReader::from_compatible_slice(&data) {
         match m.to_enum() {
             packed::RelayMessageUnionReader::RelayTransactionHashes(r) => {
-                for h in r.tx_hashes().iter() {
-                    sim.peers[p].relay_announced.push(h.to_entity());
+                let hashes: Vec<packed::Byte32> = r.tx_hashes().iter().map(|h| h.to_entity()).collect();
+                for h in hashes.iter() {
+                    sim.peers[p].relay_announced.push(h.clone());
                 }
+                crate::txgen::on_announce(sim, p, &hashes);
+            }
+            packed::RelayMessageUnionReader::RelayTransactions(r) => {
+                let txs: Vec<(packed::Transaction, u64)> = r
+                    .transactions()
+                    .iter()
+                    .map(|t| (t.transaction().to_entity(), t.cycles().unpack()))
+                    .collect();
+                crate::txgen::on_relay_transactions(sim, p, txs);
             }
             _ => {}
         }
